@@ -246,11 +246,12 @@ def r11_6(ctx: Ctx, rule="R11.6"):
         why = ""
         if ok:
             pmf = parents_map(f.node)
-            gs = [(norm(t), pol) for t, pol in guards_of(assigns[0], pmf)]
-            full = [(t, pol) for t, pol in gs if win in t]
-            pre = [(t, pol) for t, pol in gs if win not in t]
-            ok = len(full) == 1 and full[0][1] and full[0][0].replace(" ", "") == ("(%s==%s).all()" % (win, pat)).replace(" ", "") \
-                and all(t.replace(" ", "") == ("%s==%s[0]" % (v, pat)).replace(" ", "") and pol for t, pol in pre)
+            gs = cguards_of(assigns[0], pmf, split=True)
+            winc = win.replace(" ", "")
+            full = [(t, pol) for t, pol in gs if winc in t]
+            pre = [(t, pol) for t, pol in gs if winc not in t]
+            ok = len(full) == 1 and full[0][1] and full[0][0] in ("(%s==%s).all()" % (winc, pat), "(%s==%s).all()" % (pat, winc)) \
+                and all((t, pol) == ctext("%s == %s[0]" % (v, pat)) for t, pol in pre)
             blk = [s_ for s_ in walk_no_nested(loops[0]) if isinstance(s_, ast.Break)]
             ok = ok and bool(blk)
             why = "guards of the hit: %s" % gs
@@ -258,7 +259,8 @@ def r11_6(ctx: Ctx, rule="R11.6"):
            "the run search returns the first position where the window of residue kinds equals the species' pattern"
            + ("" if ok else " -- " + why), node=loops[0] if loops else f.node)
     hitvar = norm(assigns[0].targets[0]) if loops and isinstance(loops[0].target, ast.Tuple) and assigns else "start_index"
-    nf = [n_ for n_ in walk_no_nested(f.node) if isinstance(n_, ast.If) and norm(n_.test) == "%s is None" % hitvar and branch_raises(n_.body)]
+    nf = [n_ for n_ in walk_no_nested(f.node) if isinstance(n_, ast.If) and branches(n_)[0] == ctext("%s is None" % hitvar)[0]
+          and branch_raises(branches(n_)[1] if ctext("%s is None" % hitvar)[1] else branches(n_)[2])]
     init_none = phas(f.node, "%s = None" % hitvar)
     rets = [r_ for r_ in walk_no_nested(f.node) if isinstance(r_, ast.Return)]
     ctx.ob(rule, f, nf[0] if nf else "not-found test", bool(nf) and init_none and bool(rets) and all(norm(r_.value) == hitvar for r_ in rets),
